@@ -169,9 +169,17 @@ def _safe_run(check, plan):
                 signal.setitimer(signal.ITIMER_REAL, limit)
             except ValueError:          # not in the main thread
                 use_alarm = False
+        # the same number of Python frames is available below check.run() in a pool worker, in the minimiser and in
+        # a fresh replay process: recursion-depth failures replay
+        depth, f = 0, sys._getframe()
+        while f is not None:
+            depth, f = depth + 1, f.f_back
+        old_limit = sys.getrecursionlimit()
+        sys.setrecursionlimit(depth + 1000)
         try:
             r = check.run(plan)
         finally:
+            sys.setrecursionlimit(old_limit)
             if use_alarm:
                 signal.setitimer(signal.ITIMER_REAL, 0)
                 signal.signal(signal.SIGALRM, old)
